@@ -1,18 +1,18 @@
 SPECIFICATION TSpec
 CONSTANTS
-  WSel = "a"
+  WSel = "g"
   Blocks = {"A", "B"}
   MaxI = 6
   MaxMsgs = 1000000
   CertRound = FALSE
   Creds = {"ok", "bad"}
   Known = {}
-  Replay = {"Prevote", "Precommit"}
+  Replay = {}
   Skew = {"judged", "same"}
   KSet = {"Prevote", "Precommit", "Cert"}
   Ring = 4
   MaxLost = 1000000
-  FutureJudged = TRUE
+  FutureJudged = FALSE
   Mode = "G"
   MaxOps = 1000000
 CONSTRAINT HighWater
